@@ -15,7 +15,6 @@ BleLinkLayer.lean` (bit-serial receiver written from the Bluetooth Core Specific
 -/
 import NrfProofs.Ble.Ads
 import NrfProofs.Ble.Channel
-import NrfProofs.GenTieWhiten
 
 namespace Nrf.Props.C18
 open Nrf.Ble Nrf.Spec.BleLL Nrf.Proofs.Ble
@@ -212,29 +211,5 @@ example :
     (match s.advertise r (.list [List.replicate 19 7]) with
      | .ok _ => false | .error e => e == .valueError) = true := by
   decide +kernel
-
-/-- **the module-level helpers of `fake_ble.py`, about the translation of the CURRENT source**
-    (`NrfGen/FakeBle.lean`, which `tools/py2lean.py` rewrites from `fake_ble.py` on every run): the
-    translations of `swap_bits`, `reverse_bits`, `chunk`, `whitener` and `crc24_ble` (default polynomial
-    and preset) return, for all arguments, what the model functions used by every C18 / C19 theorem
-    return — the same bytes, no exception, except `chunk`, whose `ValueError` (buffer of 255 bytes or
-    more) is the model's.  Only hypothesis: the `bytes` argument of `whitener` has items `< 256` (the
-    typing fact; instantiated below).  Trusted: the translator and the semantics it assigns to its Python
-    subset; negative `int` arguments and non-default `deg_poly` / `init_val` are not covered. -/
-theorem C18_helpers_source :
-    (∀ x, Gen.swap_bits x = swapBits x)
-    ∧ (∀ b : Bytes, Gen.reverse_bits b = .ok (reverseBits b))
-    ∧ (∀ (buf : Bytes) (t : Nat), Nrf.Proofs.GenTie.toPyM (Gen.chunk buf t) = chunk buf t)
-    ∧ (∀ (buf : Bytes) (coef : Nat), buf.wf → Gen.whitener buf coef = .ok (whitener buf coef))
-    ∧ (∀ data : Bytes, Gen.crc24_ble data 0x65B 0x555555 = .ok (crc24 data)) :=
-  ⟨Nrf.Proofs.GenTie.GenTie_swap_bits, Nrf.Proofs.GenTie.GenTie_reverse_bits,
-   Nrf.Proofs.GenTie.GenTie_chunk, Nrf.Proofs.GenTie.GenTie_whitener,
-   Nrf.Proofs.GenTie.GenTie_crc24_ble⟩
-
-/-- the hypothesis of the `whitener` part holds of a concrete buffer, and the translated source computes
-    the BLE CRC of the one-byte message `01` (bits reversed, as sent on air) -/
-example : Bytes.wf [0x42, 0x00, 0xFF] ∧ Gen.crc24_ble [1] 0x65B 0x555555 = .ok (crc24 [1])
-    ∧ Gen.swap_bits 1 = 128 :=
-  ⟨by decide, Nrf.Proofs.GenTie.GenTie_crc24_ble _, rfl⟩
 
 end Nrf.Props.C18
